@@ -56,7 +56,7 @@ FUNCTION_COUNTERS = ["fn_PBKDF1", "fn_PBKDF2_fast", "fn_PBKDF2_generic_hash", "f
 DECIDING = FUNCTION_COUNTERS + ["pbkdf2_fast_path", "pbkdf2_generic_path", "multikey_HKDF", "multikey_scrypt", "multikey_SP800_108",
                                 "refusals_seen", "refusal_HKDF", "refusal_scrypt", "refusal_bcrypt", "refusal_PBKDF1",
                                 "bcrypt_check_accepted", "bcrypt_check_rejected", "oracle_pair_agreed",
-                                "bcrypt_pw71", "bcrypt_pw72", "hkdf_at_limit", "s2v_zero_components", "concurrent_kdf_calls"]
+                                "bcrypt_pw71", "bcrypt_pw72", "hkdf_at_limit", "s2v_zero_components", "concurrent_kdf_calls", "s2v_reuse_histories"]
 
 
 # =============================================================================================
@@ -1149,6 +1149,31 @@ def s2v_case(ctx, env, key, comps, key_suffix="", what=None):
     w = lambda: {"call": "_S2V.new(key, AES); update(c) for c in components; derive()", "key": key.hex(),
                  "components": [_hx(x, 128) for x in comps[:8]], "n_components": len(comps)}
     got_value(ctx, "S2V", o, expected, "S2V%s:wrong-value" % key_suffix, what or "S2V output differs from RFC 5297 sec. 2.4", w)
+    if comps and len(comps) < 126 and ctx.rng.random() < 0.5:
+        # the same object keeps being used: derive() is a pure function of the components passed so far, so a second
+        # derive() returns the same bytes and update() + derive() afterwards gives S2V of the longer vector
+        extra = [rbytes(ctx.rng, ctx.rng.choice([0, 1, 15, 16, 17, 40])) for _ in range(ctx.rng.choice([1, 2]))]
+        exp2 = modes.s2v(c, list(comps) + extra)
+
+        def lib2():
+            s = KDF._S2V.new(key, AES)
+            for x in comps:
+                s.update(x)
+            first = s.derive()
+            second = s.derive()
+            for x in extra:
+                s.update(x)
+            third = s.derive()
+            return first, second, third, s.derive()
+        o2 = outcome(lib2)
+        ctx.count("s2v_reuse_histories")
+        ctx.case(("S2V-reuse", len(key), cc(len(comps[-1]), 16), len(extra)), nontrivial=True)
+        ctx.check(o2 == ("ok", (expected, expected, exp2, exp2)), "S2V:wrong-value-after-earlier-derive",
+                  "an _S2V object that already derived once returns other bytes than RFC 5297 defines for the components passed so far "
+                  "(derive() left state behind)",
+                  lambda: dict(w(), extra_components=[_hx(x, 64) for x in extra],
+                               got=[(_hx(v, 32) if isinstance(v, bytes) else repr(v)) for v in (o2[1] if o2[0] == "ok" else [o2[1]])],
+                               expected=[expected.hex(), expected.hex(), exp2.hex(), exp2.hex()]))
     if ctx.want_sample() and len(comps) >= 3:
         ctx.sample(dict(w(), expected=expected.hex()))
 
